@@ -5,10 +5,48 @@ meta.json (property, what it needs to manifest, what was run, which checks caugh
 import json, os, shutil, sys
 
 SRC = '/tmp/seedout'
-ROUNDS = [('/tmp/seedout', 0), ('/tmp/seedout2', 2), ('/tmp/seedout3', 4)]
+ROUNDS = [('/tmp/seedout', 0), ('/tmp/seedout2', 2), ('/tmp/seedout3', 4), ('/tmp/seedout4', 6)]
 DST = os.path.join(os.path.dirname(os.path.dirname(os.path.abspath(__file__))), 'seeded')
 
 NEEDS = {
+    'C01-7': 'lifetime_monitor::notify retires itself before its predecessors (swapped blocks + the existing !is_retired guard): sequence [optional / ranged call step, REQUIRE_DESTRUCTION, later step], object dies in order, the earlier step is called again',
+    'C01-8': 'lock narrowed to find() / report_mismatch in mock_func (selection and counting no longer one critical section): two threads calling an expectation that has one call left (atomicity, no data race)',
+    'C02-7': 'retire_until retires a passed-over step from every sequence it names: optional step in two sequences passed over in one of them; a later step of the other sequence then outranks an older unsequenced expectation',
+    'C02-8': 'mock_destroyed() retires the expectation from its sequences (as C06-6; observed through the ranking of a later step on another object)',
+    'C03-7': 'forbidden-ness cached in call_matcher and not set by runtime_times: RT_TIMES(0), RT_TIMES(0,0), RT_TIMES(AT_MOST(0)) accept calls',
+    'C03-8': 'NAMED_FORBID_CALL_V with extra clauses expands with INFINITY_TIMES: the three-argument _V forbid on a void function',
+    'C04-7': 'increment_call before the can_be_called() check: a rejected out-of-sequence call is counted, so the shortfall report at the end of life is missing or carries the wrong count',
+    'C04-8': 'report_missed no longer sets the reported flag and decommission unlinks only the list head (two cooperating sites): mock dies before >=2 expectations on one function, the short one is reported twice',
+    'C05-7': 'retire_until stops at an unsatisfied front element: after an out-of-order (reported) sequenced destruction later steps are refused and earlier ones accepted',
+    'C05-8': 'retire_predecessors returns (instead of continue) when the cost in the first named sequence is 0: IN_SEQUENCE(s1,s2) expectation first in s1 with a satisfied-but-pending / optional predecessor in s2 that is called again afterwards',
+    'C06-7': 'sequence move assignment implemented as swap: dst = std::move(src) while dst still has registered expectations (no teardown report, old entries keep blocking each other)',
+    'C06-8': 'one-argument RT_TIMES(n) loses its lower bound: sequenced RT_TIMES(n) is satisfied from the start (is_completed() true early, successors not blocked)',
+    'C07-7': 'list move constructor re-links elements in reverse order: movable mock with older ALLOW_CALL and newer FORBID_CALL, move, matching call',
+    'C07-8': 'forbidden-ness cached from the compile-time limit: RT_TIMES(0) forbids are accepted silently',
+    'C08-7': 'THROW handler caches the first exception object: expectation with THROW accepting >=2 calls with differing arguments',
+    'C08-8': 'const scalar lvalue returned by reference becomes a temporary: function returning a reference to const scalar with RETURN of a const lvalue (address check)',
+    'C09-7': "plain-value parameter comparison forwards (moves) the caller's argument into operator==: type with by-value operator== and a gutting move, expectation written with a plain value",
+    'C09-8': '!matcher takes its argument by value: negated matcher on a copy-counting parameter type',
+    'C10-7': 'string_helper measures every string with strlen: string_view sub-range of a longer buffer, std::string with an embedded NUL',
+    'C10-8': 'C-string overload of regex_check drops the match flags: char const* parameter with match_not_bol / match_not_eol / match_continuous',
+    'C11-7': 'range_includes with an empty element list rejects every range',
+    'C11-8': 'range_ends_with (container form) caches the first list length in a function-local static: >=2 matchers of the same types with different list lengths in one program',
+    'C12-7': 'lock for sequence registration moved from sequence_matcher into call_matcher::set_sequence: REQUIRE_DESTRUCTION IN_SEQUENCE created while another thread walks the sequence (TSan)',
+    'C12-8': 'lock released in the catch handler of mock_func before ~trace_agent runs: throwing traced call concurrent with another traced call (TSan, race inside the tracer)',
+    'C13-7': '~deathwatched returns early during stack unwinding: watched object destroyed by a propagating exception (death not reported / requirement never told, later write into the freed object)',
+    'C13-8': 'lifetime_monitor::died is a plain bool: is_satisfied() / is_saturated() polled by another thread while the object is destroyed (TSan)',
+    'C14-7': 'validate_match dereferences the sequence pointer after the sequence object died: IN_SEQUENCE(s1,s2) expectation, s1 destroyed, then called out of order with respect to s2 (null dereference)',
+    'C14-8': "null_on_move copy assignment clears the target's monitor pointer: watched object assigned to while a requirement on it is alive",
+    'C15-7': 'find() prefers the oldest candidate on ties (<=): >=2 matching expectations all blocked by their sequences - the report blames the wrong one',
+    'C15-8': 'report_mismatch lists every failing WITH clause instead of only the first',
+    'C16-7': 'default OK reporter skipped while an exception is being handled: accepted call made inside a catch block',
+    'C16-8': 'call against a destroyed sequence is reported non-fatally and then also counted and OK-reported',
+    'C17-7': 'trace record dropped if the active tracer changed during the call: side effect constructs a second tracer that outlives the call',
+    'C17-8': 'returned value printed after it was moved from: function returning std::string / std::vector by value from an rvalue RETURN expression',
+    'C18-7': 'printer<reference_wrapper<T>> prints through print<T> with T const: const-reference parameters lose a user printer<T> and pair / tuple element-wise printing',
+    'C18-8': 'indirect_null lost its data-member-pointer conversion: a null pointer to member prints as 0',
+    'C20-7': 'CO_RETURN / CO_THROW expression evaluated before the yields for functions with parameters',
+    'C20-8': 'CO_RETURN result moved instead of forwarded: LR_CO_RETURN(local) of class type, the second call sees the gutted object',
     'C01-1': 'call counted before the sequence check: an out-of-sequence (rejected) call of an IN_SEQUENCE expectation, then continued use (flag queries / further calls)',
     'C01-2': 'match_conditions returns after the first WITH: an expectation with >=2 WITH clauses called with arguments that satisfy the first but fail a later clause',
     'C02-1': 'find() never lowers lowest_cost: >=2 overlapping expectations that each sit behind pending optional/satisfied sequence steps (all costs > 0)',
@@ -158,7 +196,7 @@ def main():
             if os.path.exists(os.path.join(out, 'meta.json')):
                 old_meta = json.load(open(os.path.join(out, 'meta.json')))
             meta = dict(id=sid, property=prop, round=1 + off // 2,
-                        author='independent sub-agent given only the property record and a scratch worktree' + ('' if off == 0 else ' (second round: also told, in one line each, which two changes had already been made for the property)'),
+                        author='independent sub-agent given only the property record and a scratch worktree' + ('' if off == 0 else ' (later rounds: also told, in one line each, which changes had already been made for the property)'),
                         needs_to_manifest=NEEDS.get(sid, ''),
                         confirmed=dict(applies=r.get('applies'), pinned_suite_passes_with_change=r.get('suite_passes_with_change'),
                                        demo_fails_with_change=r['demo_with_change'].get('failed'), demo_passes_without_change=not r['demo_without_change'].get('failed'),
